@@ -98,6 +98,8 @@ class SinkContract(FunctionContract):
     prop = PROP
     relpath = REL
     qualname = "ExecutionPhase.depends_on"
+    # @property @memoize_method: the value of the first call is returned again; phase records are immutable (trusted base)
+    accepted_decorators = ("memoize_method",)
 
     def __init__(self):
         self.p = z3.Const("self_phase", Phase)
